@@ -1,8 +1,11 @@
 import CJ.Drv.Loop
 import CJ.Drv.Ingest
-/-! Driver for C07: the registration ingest model. -/
+import CJ.Drv.IngestStore
+/-! Driver for C07: the registration ingest model (`c07`: one session, flags and events; `c07s`: sequences of
+messages with the stored registration objects). -/
 open CJ.Drv
 
 def main : IO Unit := runDriver fun
   | "c07" :: args => Ingest.handle args
+  | "c07s" :: args => IngestStore.handle args
   | _ => none
